@@ -915,3 +915,74 @@ Qed.
 
 Lemma clear_lemma h f e : unit_of (S f) (d_run (h ++ [Clear])) e = unit_of 1 [] e.
 Proof. rewrite d_run_clear. apply unit_of_fuel_nil. Qed.
+
+(** * Statements for C18 *)
+Lemma C18_dimension_lemma defs E fuel e u w :
+  is_expansion defs E -> wf_defs defs -> in_domain fuel defs E e -> unit_of fuel defs e = Some (u, w) ->
+  NoDup (keys u) /\
+  (w = false -> forall k, xdim E u k == dspec E e k) /\
+  (w = true -> u = [] /\ genuine_mismatch E e) /\
+  (genuine_mismatch E e -> w = true).
+Proof. intros HE Hd Hdom Hu. exact (unit_of_sound defs E HE Hd fuel e u w Hdom Hu). Qed.
+
+Lemma C18_terminates_lemma defs : acyclic defs ->
+  exists F, forall fuel E e, (F <= fuel)%nat -> in_domain fuel defs E e -> exists u w, unit_of fuel defs e = Some (u, w).
+Proof.
+  intros [rank Hrank]. exists (enough defs rank). intros fuel E e Hf Hdom.
+  exact (unit_of_total defs rank Hrank E fuel Hf e Hdom).
+Qed.
+
+(** the library's own expansion computes the semantic expansion, down to undefined symbols *)
+Lemma unpack_expands_lemma defs E fuel u r : is_expansion defs E -> unpack_map fuel defs u 1 = Some r ->
+  NoDup (keys r) /\ (forall n, In n (keys r) -> d_lookup defs n = None) /\ forall k, dim r k == xdim E u k.
+Proof.
+  intros HE H. destruct (unpack_map_sound defs E HE fuel u 1 r H) as [Hw [Hb Hx]].
+  split; [exact Hw|]. split; [exact Hb|]. intros k.
+  rewrite <- (xdim_of_base defs E HE r k Hw Hb), Hx. ring.
+Qed.
+
+Lemma unpack_terminates_lemma defs : acyclic defs ->
+  exists F, forall fuel u c, (F <= fuel)%nat -> unpack_map fuel defs u c <> None.
+Proof.
+  intros [rank Hrank]. exists (enough defs rank). intros fuel u c Hf.
+  exact (unpack_map_total defs rank Hrank fuel u c Hf).
+Qed.
+
+(** a unit is shown under a defined name only when it is exactly that power of the compound *)
+Lemma shown_exact_lemma defs u :
+  pack_first defs u = u \/
+  exists n d, In (n, d) defs /\ pack_first defs u = [(n, try_pack u d)] /\ ~ try_pack u d == 0 /\
+              forall k, dim u k == try_pack u d * dim d k.
+Proof.
+  destruct (pack_first_cases defs u) as [H|[n [d [H1 [H2 H3]]]]]; [left; exact H|right].
+  exists n, d. split; [exact H1|]. split; [exact H3|]. split; [exact H2|]. apply try_pack_exact. exact H2.
+Qed.
+
+Lemma display_sound_lemma defs E u : is_expansion defs E -> wf_defs defs -> NoDup (keys u) ->
+  forall k, xdim E (display defs u) k == xdim E u k.
+Proof.
+  intros HE [Hnd Hwd] Hw k. unfold display. destruct u as [|x u']; [reflexivity|]. cbn [u_empty].
+  destruct (shown_exact_lemma defs (x :: u')) as [H|[n [d [H1 [H2 [H3 H4]]]]]]; [rewrite H; reflexivity|].
+  rewrite H2. simpl xdim at 1. pose proof (HE n) as Hn. rewrite (d_lookup_In _ _ _ Hnd H1) in Hn. rewrite Hn.
+  rewrite (xdim_scaled E (x :: u') d (try_pack (x :: u') d) k Hw (Hwd _ _ H1) H4). ring.
+Qed.
+
+(** the semantic expansion of acyclic definitions is unique *)
+Lemma expansion_unique_lemma defs E1 E2 : acyclic defs -> is_expansion defs E1 -> is_expansion defs E2 ->
+  forall s k, E1 s k == E2 s k.
+Proof.
+  intros [rank Hrank] H1 H2.
+  assert (Hind : forall f s k, (lvl defs rank s <= f)%nat -> E1 s k == E2 s k).
+  { induction f as [|f IH]; intros s k Hl.
+    - unfold lvl in Hl. destruct (d_lookup defs s); lia.
+    - pose proof (H1 s) as A1. pose proof (H2 s) as A2. unfold lvl in Hl.
+      destruct (d_lookup defs s) as [d|] eqn:El.
+      + rewrite A1, A2. apply xdim_ext_E. intros n Hn. apply IH. unfold lvl.
+        destruct (d_lookup defs n) as [d'|] eqn:En; [|lia].
+        assert (rank n < rank s)%nat by (apply (Hrank s d n El Hn); congruence). lia.
+      + rewrite A1, A2. reflexivity. }
+  intros s k. apply (Hind (lvl defs rank s)). lia.
+Qed.
+
+Lemma history_lemma h n : d_lookup (d_run h) n = last_def h n None.
+Proof. apply d_run_lookup. Qed.
